@@ -202,3 +202,27 @@ def run(chk, repo, tier):
                         chk, 'R17.5', repo, RQ, '%s.%s' % (c.name, s_.name),
                         '%s.%s (rule application) is unchanged from its '
                         'reviewed reference' % (c.name, s_.name))
+    # rules given as RING text are compiled by the readers and matched by the
+    # evaluators: same reviewed references as C08/C16
+    for rel, cname in (('pgradd/RINGParser/MolQueryRead.py',
+                        'MolQueryReader'),
+                       ('pgradd/RINGParser/ReactionQueryRead.py',
+                        'ReactionQueryReader')):
+        for s_ in repo.cls(rel, cname).body:
+            if isinstance(s_, ast.FunctionDef):
+                reviewed.check(chk, 'R17.5', repo, rel,
+                               '%s.%s' % (cname, s_.name),
+                               '%s.%s (rule compilation) is unchanged from '
+                               'its reviewed reference' % (cname, s_.name))
+    MQ = 'pgradd/RDkitWrapper/MolQuery.py'
+    for c in repo.mod(MQ).tree.body:
+        if isinstance(c, ast.ClassDef):
+            for s_ in c.body:
+                if isinstance(s_, ast.FunctionDef) and s_.name in (
+                        '__init__', '__call__', 'GetQueryMatches'):
+                    reviewed.check(chk, 'R17.5', repo, MQ,
+                                   '%s.%s' % (c.name, s_.name),
+                                   '%s.%s (reactant matching) is unchanged '
+                                   'from its reviewed reference'
+                                   % (c.name, s_.name))
+
